@@ -68,7 +68,8 @@ def a_pair_w(p):
 
 
 def a_padding_w(p):
-    return [a_size_w(x) for x in p]
+    # an omitted part of Padding(...) defaults to 0%
+    return [a_size_w(x if x is not None else (0, 2)) for x in p]
 
 
 def a_align_w(a):
@@ -100,7 +101,7 @@ def mk_stretch(p):
 
 
 def mk_padding(p):
-    return Padding(*[mk_size(x) for x in p])
+    return Padding(*[None if x is None else mk_size(x) for x in p])
 
 
 def mk_align(a):
@@ -118,7 +119,7 @@ def mk_layout(l):
 def float_layout(l):
     """the abstract layout whose numbers are exactly the binary64 values the implementation holds"""
     fs = lambda s: (exact(float(num(s[0]))), s[1])  # noqa: E731
-    fp = lambda p: tuple(fs(x) for x in p)  # noqa: E731
+    fp = lambda p: tuple(fs(x if x is not None else (0, 2)) for x in p)  # noqa: E731
     return (None if l[0] is None else fp(l[0]), None if l[1] is None else fp(l[1]),
             None if l[2] is None else fp(l[2]), l[3], l[4])
 
@@ -176,6 +177,24 @@ def snap(o):
     if hasattr(o, "__dict__"):
         return (type(o).__name__, tuple((k, snap(v)) for k, v in sorted(vars(o).items())))
     return ("repr", repr(o))
+
+
+FIELDS = {"Size": ("value", "unit"), "Point": ("x", "y"), "Stretch": ("horizontal", "vertical"),
+          "Padding": ("before", "after", "start", "end"), "Alignment": ("horizontal", "vertical"),
+          "Layout": ("origin", "extent", "padding", "alignment", "webvtt_positioning")}
+
+
+def value_snap(o):
+    """snapshot of the documented (geometric) fields only: a cache attribute added to an object is not a modification
+    of the value"""
+    if o is None or isinstance(o, (int, float, str, bool)):
+        return (type(o).__name__, o)
+    if isinstance(o, (UnitEnum, HorizontalAlignmentEnum, VerticalAlignmentEnum)):
+        return ("enum", o.value)
+    for cls in type(o).__mro__:
+        if cls.__name__ in FIELDS:
+            return (type(o).__name__, tuple((f, value_snap(getattr(o, f, None))) for f in FIELDS[cls.__name__]))
+    return snap(o)
 
 
 # ---- generators ---------------------------------------------------------------------------------
